@@ -128,8 +128,11 @@ def checkRegion (labs : Array (List (List IPt))) (band : List (IPt × IPt)) (r2 
           return res
       if !isBad then continue
       -- candidate points inside the trapezoid
-      let rows : List Rat := [ym, (3 * y0 + y1) / 4, (y0 + 3 * y1) / 4]
-      let fr : List Rat := [1/2, 1/4, 3/4]
+      -- 3×3 sample points; faces of area > 16 get a 6×6 grid as well
+      let big := ((xr - xl) > 3 && (y1 - y0) > 3)
+      let rows : List Rat := if big then [ym, (3 * y0 + y1) / 4, (y0 + 3 * y1) / 4, (7 * y0 + y1) / 8, (y0 + 7 * y1) / 8, (5 * y0 + 3 * y1) / 8]
+        else [ym, (3 * y0 + y1) / 4, (y0 + 3 * y1) / 4]
+      let fr : List Rat := if big then [1/2, 1/4, 3/4, 1/8, 7/8, 3/8] else [1/2, 1/4, 3/4]
       let mut found := false
       for yy in rows do
         if found then break
